@@ -70,7 +70,9 @@ func (muxer *Muxer) Close() error {
 	}
 
 	muxer.closed = true
-	muxer.recvQueue.Signal()
+	// a queued nil instead of a bare Signal: the wake-up cannot be lost when the
+	// goroutine has tested the flag but not yet started to wait
+	muxer.recvQueue.Push(nil)
 	return nil
 }
 
